@@ -17,6 +17,7 @@ import (
 	"path/filepath"
 	"sort"
 	"strings"
+	"sync"
 
 	"verifharness/internal/coqfmt"
 )
@@ -39,6 +40,7 @@ type Engine struct {
 	Gen       func(r *coqfmt.Rng, n int, tier string) []json.RawMessage
 	Run       func(in json.RawMessage) Result
 	Corpus    []json.RawMessage // fixed regression cases, run first
+	Parallel  int               // >1: run cases concurrently (only for engines without process-global state)
 }
 
 type Stats struct {
@@ -104,10 +106,30 @@ func Main(e Engine) {
 	}
 	inW := bufio.NewWriter(inF)
 	var terms []string
+	results := make([]Result, len(inputs))
+	if e.Parallel > 1 {
+		var wg sync.WaitGroup
+		sem := make(chan struct{}, e.Parallel)
+		for i := range inputs {
+			wg.Add(1)
+			sem <- struct{}{}
+			go func(i int) {
+				defer wg.Done()
+				defer func() { <-sem }()
+				results[i] = e.Run(inputs[i])
+			}(i)
+		}
+		wg.Wait()
+	}
 	for i, in := range inputs {
 		inW.Write(in)
 		inW.WriteByte('\n')
-		res := e.Run(in)
+		var res Result
+		if e.Parallel > 1 {
+			res = results[i]
+		} else {
+			res = e.Run(in)
+		}
 		terms = append(terms, res.Coq)
 		st.Evaluations++
 		st.Kinds[res.Kind]++
